@@ -100,6 +100,23 @@ failures, evaluations, distinct, samples = [], 0, set(), []
 tmp = Path(tempfile.mkdtemp())
 
 
+from semantiva.execution.transport.in_memory import InMemorySemantivaTransport
+
+
+class FailingPublish(InMemorySemantivaTransport):
+    """in-memory transport whose publish for the n-th node output raises"""
+
+    def __init__(self, fail_at):
+        super().__init__()
+        self.fail_at, self.count = fail_at, 0
+
+    def publish(self, *a, **kw):
+        self.count += 1
+        if self.count - 1 == self.fail_at:
+            raise ConnectionError("transport down")
+        return super().publish(*a, **kw)
+
+
 def check(nodes, fail_at, kind, detail, as_dir):
     global evaluations
     evaluations += 1
@@ -109,7 +126,10 @@ def check(nodes, fail_at, kind, detail, as_dir):
     driver = JsonlTraceDriver(str(out), detail=detail)
     raised = None
     try:
-        p = Pipeline(nodes, trace=driver)
+        if kind == "publication-failure":
+            p = Pipeline(nodes, trace=driver, transport=FailingPublish(fail_at))
+        else:
+            p = Pipeline(nodes, trace=driver)
         p.process(Payload(NoDataType(), ContextType({})))
     except BaseException as e:      # noqa - the harness must see aborts too
         raised = e
@@ -164,7 +184,7 @@ def check(nodes, fail_at, kind, detail, as_dir):
             failures.append(dict(case, **{"class": "upstream-differs-from-canonical-edges"}))
     statuses = [s["status"] for s in sers]
     want_status = ["succeeded"] * len(sers)
-    if kind is not None and not kind.startswith("construction") and sers:
+    if kind is not None and not kind.startswith("construction") and kind != "publication-failure" and sers:
         want_status[-1] = "error"
     if statuses != want_status:
         failures.append(dict(case, **{"class": f"SER-statuses:{cls_suffix}", "got": statuses, "want": want_status}))
@@ -178,6 +198,10 @@ def check(nodes, fail_at, kind, detail, as_dir):
 
 
 details = ["hash", "repr", "context", "all"]
+# the transport fails while publishing the output of node k (after the node ran): one SER per node that started, no more
+for n in (1, 2, 4):
+    for k in range(n):
+        check([dict(x) for x in GOOD[:n]], k, "publication-failure", details[(n + k) % 4], (n + k) % 2 == 0)
 # parameter values that are floats without a finite value (defaults, configuration, context): the run returns and is traced in full
 SRC = {"processor": FloatValueDataSourceWithDefault}
 for label, nodes, fails in (("non-finite-default", [SRC, {"processor": Clip}], False),
@@ -195,7 +219,7 @@ for n in (1, 2, 3, 4):
             m = list(nodes[:fail_at]) + [dict(bad)] + list(nodes[fail_at:n - 1]) if fail_at < n else list(nodes) + [dict(bad)]
             for d in (details if thorough else [details[(fail_at + n) % 4]]):
                 check(m, fail_at, kind, d, (fail_at + n) % 3 == 0)
-print(json.dumps({"bound": "pipelines of 1..4 nodes x failing node at every index >= 1 x 11 failure kinds x detail levels {hash,repr,context,all} x file/directory output; 3 pipelines whose resolved parameters are non-finite floats (default, configuration, before a processor exception) x 4 detail levels",
+print(json.dumps({"bound": "pipelines of 1..4 nodes x failing node at every index >= 1 x 11 failure kinds x detail levels {hash,repr,context,all} x file/directory output; publication of a node's output failing at every index of pipelines of 1, 2, 4 nodes; 3 pipelines whose resolved parameters are non-finite floats (default, configuration, before a processor exception) x 4 detail levels",
                   "evaluations": evaluations, "distinct_nontrivial": len(distinct),
                   "rule": "distinct = (failure kind, failing index, length); every emitted line validated with jsonschema against the registry schema of its record_type",
                   "failures": failures[:40], "samples": samples}, default=str))
